@@ -122,16 +122,16 @@ Lemma schedule_filter q l : filter q (schedule l) = schedule (filter q l).
 Proof. apply filter_sort_comm; [exact phase_total|exact phase_trans]. Qed.
 
 (* ------------------------------------------------------------------ runl *)
-Lemma run_app a b st : runl (a ++ b) st = runl b (runl a st).
+Lemma runl_app a b st : runl (a ++ b) st = runl b (runl a st).
 Proof. unfold runl. apply fold_left_app. Qed.
 
-Lemma run_cons s L st : runl (s :: L) st = runl L (exec_stmt s st).
+Lemma runl_cons s L st : runl (s :: L) st = runl L (exec_stmt s st).
 Proof. reflexivity. Qed.
 
-Lemma run_nowriter L : forall st k, (forall s, In s L -> writes k s = false) -> runl L st k = st k.
+Lemma runl_nowriter L : forall st k, (forall s, In s L -> writes k s = false) -> runl L st k = st k.
 Proof.
   induction L as [|s L IH]; intros st k H; [reflexivity|].
-  rewrite run_cons, IH by (intros; apply H; right; assumption).
+  rewrite runl_cons, IH by (intros; apply H; right; assumption).
   unfold exec_stmt. rewrite (H s (or_introl eq_refl)). reflexivity.
 Qed.
 
@@ -187,16 +187,16 @@ Qed.
 
 (* main characterisation: in a trace where nobody overwrites what was read, every cell is what its
    writers leave, each writing the value made from the FINAL store *)
-Lemma run_char L : forall st, okL L -> forall k,
+Lemma runl_char L : forall st, okL L -> forall k,
   runl L st k = comb (runl L st) (filter (writes k) L) (st k).
 Proof.
   induction L as [|s L IH]; intros st Hok k; [reflexivity|].
   destruct Hok as [Hs Hok].
   assert (Hm : mkval s st = mkval s (runl (s :: L) st)).
-  { apply mkval_ext. intros r Hr. rewrite run_cons.
-    rewrite run_nowriter by (intros s' Hs'; apply Hs; [exact Hr|right; exact Hs']).
+  { apply mkval_ext. intros r Hr. rewrite runl_cons.
+    rewrite runl_nowriter by (intros s' Hs'; apply Hs; [exact Hr|right; exact Hs']).
     unfold exec_stmt. rewrite (Hs r s Hr (or_introl eq_refl)). reflexivity. }
-  cbn [filter]. rewrite run_cons in *. rewrite (IH (exec_stmt s st) Hok k).
+  cbn [filter]. rewrite runl_cons in *. rewrite (IH (exec_stmt s st) Hok k).
   assert (He : exec_stmt s st k = if writes k s then upd s (mkval s st) (st k) else st k) by reflexivity.
   rewrite He. destruct (writes k s) eqn:W.
   - rewrite comb_cons. rewrite <- Hm. reflexivity.
@@ -205,7 +205,7 @@ Qed.
 
 Lemma final_char l k : H2 l -> final l k = comb (final l) (schedule (filter (writes k) l)) [].
 Proof.
-  intros H. unfold final. rewrite (run_char (schedule l) empty (schedule_okL l H) k).
+  intros H. unfold final. rewrite (runl_char (schedule l) empty (schedule_okL l H) k).
   rewrite schedule_filter. reflexivity.
 Qed.
 
@@ -372,7 +372,7 @@ Qed.
 Lemma suffix_nowriter l pre s post r :
   H2 l -> schedule l = pre ++ s :: post -> In r (sreads s) -> runl pre empty r = final l r.
 Proof.
-  intros h2 E Hr. unfold final. rewrite E, run_app. symmetry. apply run_nowriter.
+  intros h2 E Hr. unfold final. rewrite E, runl_app. symmetry. apply runl_nowriter.
   pose proof (schedule_okL l h2) as Hok. rewrite E in Hok. apply okL_app_r in Hok. destruct Hok as [Hok _].
   intros s' Hs'. apply Hok; assumption.
 Qed.
@@ -434,8 +434,9 @@ Proof.
   apply in_map_iff in Ha. destruct Ha as [[r a'] [Ea Ha]]. cbn [snd] in Ea. subst a'.
   apply in_map_iff in Hb. destruct Hb as [[r' b'] [Eb Hb]]. cbn [snd] in Eb. subst b'.
   destruct (Hl _ Ha) as [Rr Ca]. destruct (Hl _ Hb) as [Rr' Cb]. cbn [fst snd] in Rr, Ca, Rr', Cb.
-  unfold conforms in Ca, Cb. rewrite !andb_true_iff in Ca, Cb.
-  destruct Ca as [[Pa Ra] _]. destruct Cb as [[Pb _] Wb'].
+  unfold conforms in Ca, Cb.
+  apply andb_prop in Ca. destruct Ca as [Ca _]. apply andb_prop in Ca. destruct Ca as [Pa Ra].
+  apply andb_prop in Cb. destruct Cb as [Cb Wb']. apply andb_prop in Cb. destruct Cb as [Pb _].
   apply Z.eqb_eq in Pa. apply Z.eqb_eq in Pb. rewrite Pa, Pb.
   rewrite forallb_forall in Ra. specialize (Ra k Hr).
   rewrite forallb_forall in Wb'. specialize (Wb' k (proj1 (memN_In _ _) Wb)).
@@ -443,9 +444,11 @@ Proof.
   { unfold writers. apply filter_In. split; [exact Rr'|]. unfold writes_fam.
     apply existsb_exists in Wb'. destruct Wb' as [w [Hw1 Hw2]]. apply andb_true_iff in Hw2.
     apply existsb_exists. exists w. tauto. }
-  unfold table_ok in T. rewrite !andb_true_iff in T. destruct T as [[[T _] _] _].
-  rewrite forallb_forall in T. specialize (T r Rr). unfold row_ok in T. rewrite !andb_true_iff in T.
-  destruct T as [[T1 T2] _].
+  unfold table_ok in T.
+  apply andb_prop in T. destruct T as [T _]. apply andb_prop in T. destruct T as [T _].
+  apply andb_prop in T. destruct T as [T _].
+  rewrite forallb_forall in T. specialize (T r Rr). unfold row_ok in T.
+  apply andb_prop in T. destruct T as [T _]. apply andb_prop in T. destruct T as [T1 T2].
   assert (RO : read_ok (rphase r) (fam_of k) = true).
   { apply orb_true_iff in Ra. destruct Ra as [Ra|Ra].
     - rewrite forallb_forall in T1. apply T1. apply memN_In. exact Ra.
